@@ -3,9 +3,10 @@ import MysticVerif.Basic.Proto
 import MysticVerif.Model.Dsl
 import MysticVerif.Model.Discrete
 import MysticVerif.Model.DiscreteExt
+import MysticVerif.Model.DiscreteHeap
 
 namespace MysticVerif.DrvC19
-open MysticVerif MysticVerif.Discrete MysticVerif.Dsl
+open MysticVerif MysticVerif.Discrete MysticVerif.Dsl MysticVerif.DiscreteHeap
 
 def finf : Float := 1.0 / 0.0
 def fnan : Float := 0.0 / 0.0
@@ -44,7 +45,153 @@ def getPM (args : List Val) (k : String) : Option (PM Float) := (kw? args k).bin
 
 def evalF (e : Expr) (v : List Float) : Float := (e.eval v).getD fnan
 
+/-! ### object-graph programs (Model/DiscreteHeap): `heap (cells (W X)) (meas (ids..)) (colls ((s|p ids values)..))
+(pool ..) (ops (op..))`; the reply lists the status of every operation and what python would show for ALL
+collections and ALL named measures after every operation -/
+
+structure HSt where
+  h : Heap Float
+  names : List Nat
+
+def hResolve (s : HSt) (a : Val) : Option Nat :=
+  match a with
+  | .list [.sym "m", k] => do
+    let k ← k.asNat?
+    if s.names.isEmpty then none else s.names[k % s.names.length]?
+  | .list [.sym "f", c, i] => do
+    let c ← c.asNat?
+    let i ← i.asNat?
+    let f := factors s.h (c % s.h.colls.length)
+    if f.isEmpty then (if s.names.isEmpty then none else s.names[i % s.names.length]?) else f[i % f.length]?
+  | _ => none
+
+def hParams (pool : List Float) (mode : String) (k L : Nat) : List Float :=
+  let n := if mode == "full" then L else if mode == "plus" then L + k else k
+  pool.take (min n pool.length)
+
+def hLen (delta : Int) (n : Nat) : Nat := (Int.ofNat n + delta).toNat
+
+def hObs (s : HSt) : String :=
+  let cs := (List.range s.h.colls.length).map fun cid => "(" ++ pPM (obsC s.h cid) ++ " " ++ pFs (valsOf s.h cid) ++ ")"
+  let ms := s.names.map fun mid => pM (obsM s.h mid)
+  "((" ++ " ".intercalate cs ++ ") (" ++ " ".intercalate ms ++ "))"
+
+def hStep (pool : List Float) (s : HSt) (op : Val) : Option (HSt × String) :=
+  let h := s.h
+  let nc := h.colls.length
+  match op with
+  | .list [.sym "update", c, .sym mode, k] => do
+    let cid := (← c.asNat?) % nc
+    let k ← k.asNat?
+    let params := hParams pool mode k (2 * (pts (obsC h cid)).sum)
+    match (if h.scen.getD cid false then hSUpdate h cid params else hUpdate h cid params) with
+    | some h' => some ({ s with h := h' }, "ok")
+    | none => some (s, "index")
+  | .list [.sym "load", c, .sym mode, k, p] => do
+    let cid := (← c.asNat?) % nc
+    let k ← k.asNat?
+    let p ← p.asNats?
+    let params := hParams pool mode k (2 * p.sum)
+    match (if h.scen.getD cid false then hSLoad h cid params p else hLoad h cid params p) with
+    | some h' => some ({ s with h := h' }, "ok")
+    | none => some (s, "index")
+  | .list [.sym "flatten", _] => some (s, "ok")
+  | .list [.sym "cshare", c, keep] => do
+    let cid := (← c.asNat?) % nc
+    let keep ← keep.asBool?
+    if keep then some ({ s with h := pushColl h (factors h cid) (valsOf h cid) (h.scen.getD cid false) }, "ok")
+    else some ({ s with h := pushColl h (factors h cid) [] false }, "ok")
+  | .list [.sym "cscen", c, n] => do
+    let cid := (← c.asNat?) % nc
+    let n ← n.asNat?
+    match hMkScen h cid (pool.take n) with
+    | some h' => some ({ s with h := h' }, "ok")
+    | none => some ({ s with h := pushColl h [] [] true }, "index")
+  | .list [.sym "cnew", .list addrs] =>
+    some ({ s with h := pushColl h (addrs.filterMap (hResolve s)) [] false }, "ok")
+  | .list [.sym "mcopy", a] => do
+    let mid ← hResolve s a
+    some ({ h := shareM h mid, names := s.names ++ [h.meas.length] }, "ok")
+  | .list [.sym "msetpos", a, .int delta, off] => do
+    let mid ← hResolve s a
+    let off ← off.asNat?
+    let r := hSetMPos h mid ((pool.drop off).take (hLen delta (h.meas.getD mid []).length))
+    some ({ s with h := r.1 }, if r.2 then "index" else "ok")
+  | .list [.sym "msetwts", a, .int delta, off] => do
+    let mid ← hResolve s a
+    let off ← off.asNat?
+    let r := hSetMWts h mid ((pool.drop off).take (hLen delta (h.meas.getD mid []).length))
+    some ({ s with h := r.1 }, if r.2 then "index" else "ok")
+  | .list [.sym "mset", a, .sym which, v] => do
+    let mid ← hResolve s a
+    let v ← v.asFloat?
+    let m := obsM h mid
+    let xs := mpositions m
+    let ws := mweights m
+    let nx ← (if which == "mean" then some (some (imposeMean finf v xs ws))
+      else if which == "range" then some (imposeSpread finf fnan v xs ws)
+      else if which == "var" then some (some (imposeVariance finf fnan Float.sqrt v xs ws)) else none)
+    match nx with
+    | none => some (s, "value")
+    | some p =>
+      let r := hSetMPos h mid p
+      some ({ s with h := r.1 }, if r.2 then "index" else "ok")
+  | .list [.sym "mnorm", a] => do
+    let mid ← hResolve s a
+    let m := obsM h mid
+    let xs := mpositions m
+    let ws := mweights m
+    let w' := normalizeMass 1 ws
+    let r := hSetMPos h mid (imposeMean finf (mean finf xs ws) xs w')
+    let r2 := hSetMWts r.1 mid w'
+    some ({ s with h := r2.1 }, if r.2 || r2.2 then "index" else "ok")
+  | .list [.sym "csetpos", c, off, misfit] => do
+    let cid := (← c.asNat?) % nc
+    let off ← off.asNat?
+    let misfit ← misfit.asBool?
+    let S := ((pts (obsC h cid)).foldl (fun (acc : List (List Float) × Nat) n =>
+      (acc.1 ++ [(pool.drop acc.2).take n], acc.2 + n)) ([], off)).1
+    let P := pack S
+    let P := if misfit && P.length > 1 then P.dropLast else P
+    let r := hSetCPos h cid P
+    some ({ s with h := r.1 }, match r.2 with
+      | none => "ok"
+      | some .index => "index"
+      | some .value => "value")
+  | .list [.sym "csetcm", c, .int delta, off] => do
+    let cid := (← c.asNat?) % nc
+    let off ← off.asNat?
+    let vs := (pool.drop off).take (hLen delta (factors h cid).length)
+    let r := hSetCM finf h cid vs
+    some ({ s with h := r.1 }, if r.2 then "index" else "ok")
+  | _ => none
+
+def hRun (pool : List Float) : HSt → List Val → Option (List String × List String)
+  | _, [] => some ([], [])
+  | s, op :: ops => do
+    let r ← hStep pool s op
+    let rest ← hRun pool r.1 ops
+    some (r.2 :: rest.1, hObs r.1 :: rest.2)
+
+def handleHeap (args : List Val) : String := Id.run do
+  let some cells := (kw? args "cells").bind parseMeasure | return "bad-op"
+  let some ml := (kw? args "meas").bind Val.asList? | return "bad-op"
+  let some meas := ml.mapM Val.asNats? | return "bad-op"
+  let some cl := (kw? args "colls").bind Val.asList? | return "bad-op"
+  let some colls := cl.mapM (fun v => match v with
+    | .list [.sym k, f, vs] => do pure (k == "s", (← f.asNats?), (← vs.asFloats?))
+    | _ => none) | return "bad-op"
+  let some pool := getFs args "pool" | return "bad-op"
+  let some ops := (kw? args "ops").bind Val.asList? | return "bad-op"
+  let h : Heap Float := { cells := cells, meas := meas, colls := colls.map (·.2.1), vals := colls.map (·.2.2),
+                          scen := colls.map (·.1) }
+  if h.colls.isEmpty then return "bad-op"
+  match hRun pool ⟨h, List.range meas.length⟩ ops with
+  | some (st, obs) => return s!"ok st={pL st} obs={pL obs}"
+  | none => return "bad-op"
+
 def handle : Handler
+  | .sym "heap" :: args => handleHeap args
   | .sym "flatten" :: args => Id.run do
     let some c := getPM args "c" | return "bad-op"
     return s!"ok y={pFs (flatten c)}"
